@@ -516,8 +516,8 @@ pub fn gen_cols(g: &mut G<'_>, n: usize, bin: bool) -> Vec<ColSpec> {
             let mut c = gen_col(g, fv);
             if n > 20 {
                 // keep wide headers cheap
-                c.table.truncate(8);
-                c.name.truncate(8);
+                c.table = c.table.chars().take(8).collect();
+                c.name = c.name.chars().take(8).collect();
             }
             if bin && !VALUE_COLTYPES.contains(&c.coltype) {
                 c.flags &= !FLAG_NOT_NULL;
@@ -719,4 +719,147 @@ pub fn gen_query_text(g: &mut G<'_>) -> String {
 
 pub fn ping() -> Cmd {
     Cmd::Ping
+}
+
+// ------------------------------------------------------------------------------------------
+// whole conversations with writer programs (shared by C03, C05, C12, C19)
+
+pub struct ConvOpts {
+    pub max_cmds: usize,
+    pub max_rows: usize,
+    pub sentinels: bool,
+    pub default_init_sometimes: bool,
+    pub quit_sometimes: bool,
+}
+
+pub fn gen_use_stmt(g: &mut G<'_>) -> (String, String) {
+    // (query text, bare name) in the spellings clients emit
+    let name: String = match g.weighted(&[5, 2]) {
+        0 => {
+            let n = g.usize_in(1, 10);
+            (0..n).map(|_| *g.pick(&['a', 'b', 'z', '_', '0', '9', 'X', 'é'])).collect()
+        }
+        _ => g.pick(&["db", "my db", "a;b", "x-y", "test"]).to_string(),
+    };
+    let quoted = name.contains(' ') || name.contains(';') || name.contains('-') || g.chance(1, 3);
+    let kw = if g.coin() { "USE" } else { "use" };
+    let mut q = format!("{} ", kw);
+    if g.chance(1, 5) {
+        q.push(' ');
+    }
+    if quoted {
+        q.push('`');
+        q.push_str(&name);
+        q.push('`');
+    } else {
+        q.push_str(&name);
+    }
+    if g.chance(1, 3) {
+        q.push(';');
+    }
+    if g.chance(1, 5) {
+        q.push_str(*g.pick(&[" ", "\n", "  ", "\t"]));
+    }
+    (q, name)
+}
+
+pub fn gen_init_prog(g: &mut G<'_>) -> InitProg {
+    if g.chance(1, 4) {
+        InitProg::Error { kind: *g.pick(&[1049u16, 1044, 1046]), msg: gen_error_msg(g) }
+    } else {
+        InitProg::Ok
+    }
+}
+
+/// Commands + actions.  Executes refer to statements prepared earlier in the conversation
+/// (with zero parameters, so the parameter block is empty).
+pub fn gen_conv(g: &mut G<'_>, o: &ConvOpts) -> Conversation {
+    let n = g.usize_in(1, o.max_cmds.max(1));
+    let mut cmds: Vec<Cmd> = Vec::new();
+    let mut actions: Vec<Action> = Vec::new();
+    let mut live: Vec<u32> = Vec::new();
+    let mut next_id = 1u32;
+    for _ in 0..n {
+        match g.weighted(&[8, 6, 3, 2, 2, 2, 2, 1, 1, 1]) {
+            0 => {
+                cmds.push(Cmd::Query { text: Blob::Lit(gen_query_text(g).into_bytes()) });
+                actions.push(Action::Result(gen_program(g, false, o.max_rows)));
+            }
+            1 => {
+                // execute (prepare first if nothing is live)
+                if live.is_empty() || g.chance(1, 4) {
+                    let id = if g.chance(1, 6) { *g.pick(&[0u32, u32::MAX, 0x0100_0000]) } else { next_id };
+                    next_id += 1;
+                    cmds.push(Cmd::Prepare { text: Blob::Lit(gen_query_text(g).into_bytes()) });
+                    actions.push(Action::Prepare(gen_prepare(g, id, 0)));
+                    if !live.contains(&id) {
+                        live.push(id);
+                    }
+                    if o.sentinels {
+                        cmds.push(Cmd::Ping);
+                    }
+                }
+                let id = *g.pick(&live);
+                cmds.push(Cmd::Execute { id, params: vec![], send_types: false, flags: 0, iterations: 1 });
+                actions.push(Action::Result(gen_program(g, true, o.max_rows)));
+            }
+            2 => {
+                cmds.push(Cmd::Prepare { text: Blob::Lit(gen_query_text(g).into_bytes()) });
+                if g.chance(1, 4) {
+                    actions.push(Action::Prepare(PrepProg::Error { kind: gen_error_kind(g), msg: gen_error_msg(g) }));
+                } else {
+                    let id = next_id;
+                    next_id += 1;
+                    let np = *g.pick(&[0usize, 0, 1, 3]);
+                    // statements with parameters are never executed here
+                    actions.push(Action::Prepare(gen_prepare(g, id.wrapping_add(5000), np)));
+                }
+            }
+            3 => {
+                let (q, _) = gen_use_stmt(g);
+                cmds.push(Cmd::Query { text: Blob::Lit(q.into_bytes()) });
+                actions.push(Action::Init(gen_init_prog(g)));
+            }
+            4 => {
+                cmds.push(Cmd::InitDb { name: Blob::Lit(gen_name(g).into_bytes()) });
+                actions.push(Action::Init(gen_init_prog(g)));
+            }
+            5 => cmds.push(Cmd::Ping),
+            6 => {
+                let q = g.pick(&["SELECT @@max_allowed_packet", "select @@max_allowed_packet", "SELECT @@version_comment limit 1", "select @@x", "SELECT @@"]).to_string();
+                cmds.push(Cmd::Query { text: Blob::Lit(q.into_bytes()) });
+            }
+            7 => cmds.push(Cmd::FieldList { arg: gen_bytes(g, false) }),
+            8 => {
+                // close: a live statement or an unknown id
+                if !live.is_empty() && g.coin() {
+                    let i = g.below(live.len() as u64) as usize;
+                    let id = live.remove(i);
+                    cmds.push(Cmd::Close { id });
+                } else {
+                    cmds.push(Cmd::Close { id: 900_000 + g.below(10) as u32 });
+                }
+            }
+            _ => {
+                if let Some(&id) = live.first() {
+                    cmds.push(Cmd::LongData { id, param: g.below(3) as u16, data: Blob::Lit(gen_bytes(g, false)) });
+                } else {
+                    cmds.push(Cmd::Ping);
+                }
+            }
+        }
+        if o.sentinels {
+            cmds.push(Cmd::Ping);
+        }
+    }
+    if o.quit_sometimes && g.chance(1, 3) {
+        cmds.push(Cmd::Quit);
+    }
+    let mut c = Conversation::new(cmds, actions);
+    if o.default_init_sometimes && g.chance(1, 5) {
+        c.default_init = true;
+        // the scripted init actions are not consumed by a shim that keeps the default on_init
+        c.actions.retain(|a| !matches!(a, Action::Init(_)));
+    }
+    c
 }
